@@ -31,19 +31,38 @@ def lexer_reads_characters(ctx):
     ctx.covered("character source of the lexer (chars(), no byte-wise access)", n + len(src), distinct_keys=["chars:%d" % len(src)])
 
 
+def comparison_branch(h):
+    """(body, ids bound to the operator) of the part of conforms that handles a comparison: the then-branch of
+    `if let Some(op) = expr.op`, the Some arm of `match expr.op`, or what follows `let Some(op) = expr.op else { .. }`"""
+    for x in walk_exprs(h):
+        if x["k"] == "If" and x["c"]["k"] == "LetE" and render(peel(x["c"]["init"])).endswith("expr.op") and "Some" in render_pat(x["c"]["pat"]):
+            return x["t"], set(pat_binders(x["c"]["pat"]))
+        if x["k"] == "Match" and x.get("src") == "Normal" and render(peel(x["scrut"])).endswith("expr.op"):
+            for a in x["arms"]:
+                if "Some" in render_pat(a["pat"]) and pat_binders(a["pat"]):
+                    return a["body"], set(pat_binders(a["pat"]))
+    for b in walk(h):
+        if b["k"] == "Block":
+            for i, st in enumerate(b["stmts"]):
+                if st["k"] == "Let" and st.get("els") is not None and st.get("init") is not None and render(peel(st["init"])).endswith("expr.op") and \
+                        "Some" in render_pat(st["pat"]):
+                    rest = {"k": "Block", "sp": b.get("sp", "?"), "stmts": b["stmts"][i + 1:], "synthetic": True}
+                    if "expr" in b:
+                        rest["expr"] = b["expr"]
+                    return rest, set(pat_binders(st["pat"]))
+    return None, set()
+
+
 def comparison_is_operator_dependent(ctx):
     """in the comparison branch of conforms every outcome is produced by the operator table: a result returned before the
     dispatch on `op` (e.g. `if value is empty { return false }`) makes `A` and `not A` both false for the same entry"""
     name = "searcher::Searcher::conforms"
     h = ctx.anchor_hir(name)
-    br = None
-    for x in walk_exprs(h):
-        if x["k"] == "If" and x["c"]["k"] == "LetE" and render(peel(x["c"]["init"])).endswith("expr.op"):
-            br = x
-    if br is None:
-        ctx.violation("anchor/comparison-branch", name, "comparison branch (`if let Some(op) = expr.op`) of conforms not found")
+    body, op_ids = comparison_branch(h)
+    if body is None:
+        ctx.violation("anchor/comparison-branch", name, "comparison branch (`if let Some(op) = expr.op`, `let Some(op) = .. else`, `match expr.op`) of conforms not found")
         return
-    op_ids = set(pat_binders(br["c"]["pat"]))
+    br = {"t": body}
     n = 0
     for x in walk_exprs(br["t"]):
         if x["k"] != "Ret":
@@ -59,7 +78,8 @@ def comparison_is_operator_dependent(ctx):
                           (render(x.get("e")), "; ".join(guard_text(g) for g in gs if g[0] == "if")[:160]))
     asg = [x for x in walk_exprs(br["t"]) if x["k"] == "Assign" and render(x["l"]) == "result"]
     ctx.covered("results of the comparison branch of conforms produced under the dispatch on the operator", n + len(asg), distinct_keys=["returns:%d" % n])
-    ctx.floor(n, 10, "returns inside the operator tables of conforms", name)
+    tables_ = [m for m in walk_exprs(br["t"]) if m["k"] == "Match" and any(y["k"] == "Path" and y.get("res") in op_ids for y in walk_exprs(m["scrut"]))]
+    ctx.floor(len(tables_), 1, "dispatch on the operator inside the comparison branch of conforms", name)
 
 
 def read_amount_used(ctx):
